@@ -73,6 +73,13 @@ var ugForms = []string{
 	"var t t1; t.fb = \"\"",
 }
 
+// ugSwap, when set, names a chunk whose lines a and b are exchanged (the
+// order of two fields inside one struct declaration); keys are mapped back.
+var ugSwap struct {
+	on          bool
+	chunk, a, b int
+}
+
 const ugNSlots = 4 // m2, f1, Exported x 2 (in skeleton order)
 
 // ugKey identifies an object independently of declaration order.
@@ -120,7 +127,11 @@ func ugBuild(order []int, split int, slots [ugNSlots]int, del map[[2]int]bool) *
 				text = strings.Replace(text, "%S", "{ "+ugForms[slots[s]]+" }", 1)
 				s++
 			}
-			for li, l := range strings.Split(text, "\n") {
+			lines := strings.Split(text, "\n")
+			if ugSwap.on && ugSwap.chunk == ci {
+				lines[ugSwap.a], lines[ugSwap.b] = lines[ugSwap.b], lines[ugSwap.a]
+			}
+			for li, l := range lines {
 				if del[[2]int{ci, li}] {
 					continue
 				}
@@ -153,7 +164,15 @@ func (p *ugProgram) key(pos token.Position, name string) ugKey {
 		}
 		for k := len(p.starts[fi]) - 1; k >= 0; k-- {
 			if pos.Line >= p.starts[fi][k] {
-				return ugKey{p.chunks[fi][k], pos.Line - p.starts[fi][k], name}
+				ci, li := p.chunks[fi][k], pos.Line-p.starts[fi][k]
+				if ugSwap.on && ugSwap.chunk == ci {
+					if li == ugSwap.a {
+						li = ugSwap.b
+					} else if li == ugSwap.b {
+						li = ugSwap.a
+					}
+				}
+				return ugKey{ci, li, name}
 			}
 		}
 	}
